@@ -258,7 +258,7 @@ func driveC02(seed int64, tier, out, replay string) {
 				if i%3 == 1 {
 					c.Domain = "inputs"
 				}
-				if i%6 == 5 {
+				if i%3 == 2 {
 					c.Domain = "ifaces"
 				}
 				cases = append(cases, c)
